@@ -28,6 +28,7 @@ var protectedTypes = map[string]string{
 	"model.Criterion":                                     "criteria (and their declared value ranges) are shared with the request",
 	"model.WeightedCriterion":                             "ranked criteria embed request criteria",
 	"model.BiasedResult":                                  "a bias result",
+	"model.BiasParams":                                    "a bias entry of the request (its props are the request's own maps)",
 	"weighted_sum.weightedSumParams":                      "parsed method parameters",
 	"owa.owaParams":                                       "parsed method parameters",
 	"choquet.choquetParams":                               "parsed method parameters",
@@ -60,7 +61,7 @@ func isProtected(t types.Type) (string, bool) {
 
 func refLike(t types.Type) bool {
 	switch t.Underlying().(type) {
-	case *types.Pointer, *types.Slice, *types.Map:
+	case *types.Pointer, *types.Slice, *types.Map, *types.Interface:
 		return true
 	}
 	return false
@@ -89,17 +90,19 @@ func (o *ownInfo) borrowed(v ssa.Value, depth int) (bool, string) {
 func (o *ownInfo) loadedFrom(v ssa.Value, addr ssa.Value, depth int) (bool, string) {
 	// value read from memory: borrowed if the memory is, or if a reference is read out of a protected struct
 	if refLike(v.Type()) {
-		var base types.Type
-		var fname string
-		switch a := addr.(type) {
-		case *ssa.FieldAddr:
-			base, fname = a.X.Type(), fieldName(a.X.Type(), a.Field)
-		case *ssa.Field:
-			base, fname = a.X.Type(), fieldName(a.X.Type(), a.Field)
-		}
-		if base != nil {
-			if k, ok := isProtected(base); ok {
-				return true, fmt.Sprintf("loaded from %s.%s (%s)", k, fname, protectedTypes[k])
+		for _, origin := range o.addressOrigins(addr, 0) {
+			var base types.Type
+			var fname string
+			switch a := origin.(type) {
+			case *ssa.FieldAddr:
+				base, fname = a.X.Type(), fieldName(a.X.Type(), a.Field)
+			case *ssa.Field:
+				base, fname = a.X.Type(), fieldName(a.X.Type(), a.Field)
+			}
+			if base != nil {
+				if k, ok := isProtected(base); ok {
+					return true, fmt.Sprintf("loaded from %s.%s (%s)", k, fname, protectedTypes[k])
+				}
 			}
 		}
 	}
@@ -121,6 +124,39 @@ func (o *ownInfo) loadedFrom(v ssa.Value, addr ssa.Value, depth int) (bool, stri
 		}
 	}
 	return o.borrowed(addr, depth)
+}
+
+// addressOrigins: the address itself, or - when it is a pointer parameter - the addresses the request-path call sites pass.
+func (o *ownInfo) addressOrigins(addr ssa.Value, depth int) []ssa.Value {
+	prm, ok := addr.(*ssa.Parameter)
+	if !ok || depth > 3 {
+		return []ssa.Value{addr}
+	}
+	fn := prm.Parent()
+	idx := -1
+	for i, p := range fn.Params {
+		if p == prm {
+			idx = i
+		}
+	}
+	out := []ssa.Value{addr}
+	for _, cs := range o.sh.callers[fn] {
+		c := cs.Instr.Common()
+		var arg ssa.Value
+		if c.IsInvoke() {
+			if idx == 0 {
+				arg = c.Value
+			} else if idx-1 < len(c.Args) {
+				arg = c.Args[idx-1]
+			}
+		} else if idx >= 0 && idx < len(c.Args) {
+			arg = c.Args[idx]
+		}
+		if arg != nil {
+			out = append(out, o.addressOrigins(arg, depth+1)...)
+		}
+	}
+	return out
 }
 
 // storedIntoLocal: some value stored into (a field/element of) the local variable is borrowed.
